@@ -1,40 +1,264 @@
 /-
-  GV.Spec.GoTypes — a small language of Go types (the "grid language" of the comparability tie of C08) and the
-  Go specification's rule for comparability ("Comparison operators"): slice, map and function types are not
-  comparable; "struct types are comparable if all their field types are comparable" — ALL fields, blank (`_`) and
-  embedded ones included (blank fields are only *ignored when comparing values*); "array types are comparable if
-  their array element types are comparable"; integers, strings and interface types are comparable.
+  GV.Spec.GoTypes — what the Go specification demands of run-time types (written from the Go spec and the
+  reference algorithm of go/types `NewMethodSet`/`lookupFieldOrMethod`, independently of types.js).
+
+  * Type identity ("Type identity" in the Go spec) of two constructor applications over canonical components.
+  * Method sets ("Method sets", "Selectors", "Struct types: promoted methods"): promotion through embedded
+    fields by depth, shadowing by shallower *fields or methods*, exclusion of selectors that are ambiguous at the
+    shallowest depth (including the same embedded type reached twice), pointer-receiver rule.
+  * Interface satisfaction: every interface method (unexported names qualified by package) is in the method set
+    with an identical signature.
+  * Interface equality: dynamic types identical and values equal; run-time panic if that type is not comparable.
+
+  The spec reads the same heap of type objects as the model (`GV.Types.St.objs`): value-receiver methods of a
+  named type `T` are `T.methods`, pointer-receiver methods are the methods of `*T`.
 -/
+import GV.Model.Types
+
 namespace GV.Spec.GoTypes
+open GV.Types
 
-inductive FieldKind | named | blank | embedded
-  deriving DecidableEq, Repr
+/-! ### type identity -/
+
+def fieldIdentical (p1 p2 : Str) (f g : Field) : Bool :=
+  f.name == g.name && f.embedded == g.embedded && f.typ == g.typ && f.tag == g.tag && f.exported == g.exported
+    && (f.exported || p1 == p2)       -- non-exported field names from different packages are always different
+
+def fieldsIdentical (p1 p2 : Str) : List Field → List Field → Bool
+  | [], [] => true
+  | f :: fs, g :: gs => fieldIdentical p1 p2 f g && fieldsIdentical p1 p2 fs gs
+  | _, _ => false
+
+/-- Go type identity of two unnamed composite types whose component types are already canonical (equal ids ⇔
+    identical types). Interface method lists are in the compiler's canonical (sorted) order. -/
+def goIdentical : Ctor → Ctor → Bool
+  | .array e n, .array e' n' => e == e' && n == n'
+  | .chan e so ro, .chan e' so' ro' => e == e' && so == so' && (so || ro == ro')
+  | .func p r v, .func p' r' v' => p == p' && r == r' && v == v'
+  | .iface ms, .iface ms' => ms == ms'
+  | .map k e, .map k' e' => k == k' && e == e'
+  | .ptr e, .ptr e' => e == e'
+  | .slice e, .slice e' => e == e'
+  | .struct p fs, .struct p' fs' => fieldsIdentical p p' fs fs'
+  | _, _ => false
+
+/-- the reference canonicaliser: one type object per identity class -/
+structure SSt where
+  st : St
+  recs : List (Ctor × Nat) := []
+
+def newTypeS (s : SSt) (kind : Nat) (str : Str) (named : Bool) (pkg : Str) : SSt × Nat :=
+  let r := newType s.st kind str named pkg
+  if kind = kStruct ∨ kind = kArray then ({ st := r.1, recs := (.ptr r.2, r.2 - 1) :: s.recs }, r.2)
+  else ({ s with st := r.1 }, r.2)
+
+def canonS (s : SSt) (c : Ctor) : SSt × Nat :=
+  match s.recs.find? (fun r => goIdentical r.1 c) with
+  | some r => (s, r.2)
+  | none =>
+    let r := newTypeS s (kindOf c) (strOf s.st c) false []
+    ({ st := initType r.1.st r.2 c, recs := (c, r.2) :: r.1.recs }, r.2)
+
+def initS : SSt :=
+  let s0 : SSt := { st := { objs := GV.Types.init.objs.take 18, cache := [] } }
+  let s1 := (canonS s0 (.iface [])).1
+  let r := newTypeS s1 kInterface (lit "error") true []
+  let f := canonS r.1 (.func [] [16] false)
+  { f.1 with st := initType f.1.st r.2 (.iface [{ name := lit "Error", pkg := [], typ := f.2 }]) }
+
+def ptrOfS (s : SSt) (t : Nat) : Option Nat := (s.recs.find? (fun r => goIdentical r.1 (.ptr t))).map (·.2)
+
+/-! ### method sets (go/types methodset.go) -/
+
+/-- selector identity: name, qualified by the package path when not exported (`pkg = []` for exported names) -/
+abbrev SelKey := Str × Str
+
+structure SEnt where
+  typ : Nat
+  indirect : Bool
+  multiples : Bool
+deriving DecidableEq, Repr
+
+/-- per-depth table: `none` = collision / not a member of the method set -/
+abbrev Tbl := List (SelKey × Option Method)
+
+def Tbl.has (t : Tbl) (k : SelKey) : Bool := t.any (fun e => e.1 == k)
+
+def Tbl.put (t : Tbl) (k : SelKey) (v : Option Method) : Tbl :=
+  if t.has k then t.map (fun e => if e.1 == k then (k, v) else e) else t ++ [(k, v)]
+
+/-- `methodSet.addOne` -/
+def addOne (t : Tbl) (m : Method) (ptrRecv indirect multiples : Bool) : Tbl :=
+  let k : SelKey := (m.name, m.pkg)
+  if !multiples && !t.has k && (indirect || !ptrRecv) then t.put k (some m) else t.put k none
+
+def addFieldKey (t : Tbl) (k : SelKey) : Tbl := t.put k none
+
+structure SLevel where
+  seen : List Nat
+  mset : Tbl
+  fset : List SelKey
+  next : List SEnt
+
+/-- pointer-receiver methods of the named type `t`, as a function of the heap: the methods of the type object
+    that is `*t` (`ptrOf`) -/
+def declaredMethods (s : St) (ptrOf : Nat → Option Nat) (t : Nat) : List (Method × Bool) :=
+  let o := s.get t
+  if o.kind = kInterface then [] else
+    o.methods.map (fun m => (m, false)) ++
+    (match ptrOf t with | some p => (s.get p).methods.map (fun m => (m, true)) | none => [])
+
+def sVisit (s : St) (ptrOf : Nat → Option Nat) (a : SLevel) (e : SEnt) : SLevel :=
+  let o := s.get e.typ
+  if o.named && a.seen.contains e.typ then a else
+    let a := if o.named then
+        { a with seen := e.typ :: a.seen,
+                 mset := (declaredMethods s ptrOf e.typ).foldl (fun t mp => addOne t mp.1 mp.2 e.indirect e.multiples) a.mset }
+      else a
+    if o.kind = kStruct then
+      { a with fset := a.fset ++ o.fields.map (fun f => (f.name, if f.exported then [] else o.pkgPath)),
+               next := a.next ++ (o.fields.filter (·.embedded)).map fun f =>
+                 let ft := s.get f.typ
+                 if ft.kind = kPtr ∧ !ft.named then ⟨ft.elem, true, e.multiples⟩ else ⟨f.typ, e.indirect, e.multiples⟩ }
+    else if o.kind = kInterface then
+      { a with mset := o.methods.foldl (fun t m => addOne t m false true e.multiples) a.mset }
+    else a
+
+/-- `consolidateMultiples` -/
+def consolidate : List SEnt → List SEnt → List SEnt
+  | acc, [] => acc
+  | acc, e :: r =>
+    if acc.any (fun x => x.typ == e.typ) then
+      consolidate (acc.map fun x => if x.typ == e.typ then { x with multiples := true } else x) r
+    else consolidate (acc ++ [e]) r
+
+/-- merge one depth into `base`: names found at a shallower depth win; a method whose name is also a field name
+    at the same depth is a collision; remaining field names block deeper selectors -/
+def mergeLevel (base : Tbl) (mset : Tbl) (fset : List SelKey) : Tbl :=
+  let b1 := mset.foldl (fun b e => if b.has e.1 then b else b ++ [(e.1, if fset.contains e.1 then none else e.2)]) base
+  fset.foldl (fun b k => if b.has k then b else b ++ [(k, none)]) b1
+
+def sLoop (s : St) (ptrOf : Nat → Option Nat) : Nat → List SEnt → List Nat → Tbl → Tbl
+  | 0, _, _, base => base
+  | _ + 1, [], _, base => base
+  | f + 1, cur, seen, base =>
+    let a := cur.foldl (sVisit s ptrOf) { seen := seen, mset := [], fset := [], next := [] }
+    sLoop s ptrOf f (consolidate [] a.next) a.seen (mergeLevel base a.mset a.fset)
+
+def specTable (s : St) (ptrOf : Nat → Option Nat) (t : Nat) : Tbl :=
+  let o := s.get t
+  let isPtr := o.kind = kPtr ∧ !o.named
+  if isPtr ∧ (s.get o.elem).kind = kInterface then []
+  else sLoop s ptrOf (s.size + 1) [⟨if isPtr then o.elem else t, isPtr, false⟩] [] []
+
+/-- the Go method set of the type object `t` -/
+def specMethodSet (s : St) (ptrOf : Nat → Option Nat) (t : Nat) : List Method :=
+  (specTable s ptrOf t).filterMap (·.2)
+
+/-- `T implements I` -/
+def implementsS (s : St) (ptrOf : Nat → Option Nat) (v i : Nat) : Bool :=
+  (s.get i).methods.all fun tm => (specMethodSet s ptrOf v).any fun vm => vm.name == tm.name && vm.pkg == tm.pkg && vm.typ == tm.typ
+
+/-- `x.(T)`: `dyn` = dynamic type of x (`none` for a nil interface value) -/
+def assertS (s : St) (ptrOf : Nat → Option Nat) (dyn : Option Nat) (t : Nat) : Bool :=
+  match dyn with
+  | none => false
+  | some v => if (s.get t).kind = kInterface then implementsS s ptrOf v t else v == t
+
+/-- pointer types as the model's heap records them (`elem.ptr`) -/
+def ptrOfM (s : St) (t : Nat) : Option Nat := s.cache.lookup (cPtr, dec t)
+
+/-! ### comparability and interface equality -/
+
+/-- Go: a type is comparable unless it is a slice, map, function, or a struct/array containing one.
+    Fuel bounds the nesting depth (struct/array nesting is finite: a type cannot contain itself by value). -/
+def comparableS (s : St) : Nat → Nat → Bool
+  | 0, _ => true
+  | f + 1, t =>
+    let o := s.get t
+    if o.kind = kSlice ∨ o.kind = kMap ∨ o.kind = kFunc then false
+    else if o.kind = kArray then comparableS s f o.elem
+    else if o.kind = kStruct then o.fields.all fun fl => comparableS s f fl.typ
+    else true
 
 mutual
-inductive Ty
-  | int | str | iface
-  | slice | map | func
-  | arr (n : Nat) (elem : Ty)
-  | struct (fields : Fields)
-inductive Fields
-  | nil
-  | cons (k : FieldKind) (t : Ty) (rest : Fields)
+/-- Go `==` on two values of static type `t` (interface-typed operands compare dynamic type, then value) -/
+def eqS (s : St) : Val → Val → Nat → EqRes
+  | .tuple as, .tuple bs, t =>
+    let o := s.get t
+    if o.kind = kArray then
+      if as.length ≠ bs.length then .ff else eqArrS s as bs o.elem
+    else eqStructS s as bs (o.fields.map (·.typ))
+  | .ifaceNil, .ifaceNil, _ => .tt
+  | .iface ta va, .iface tb vb, _ =>
+    if ta ≠ tb then .ff
+    else if !comparableS s (s.size + 1) ta then .panic
+    else eqS s va vb ta
+  | .num a, .num b, _ => .ofBool (a == b)
+  | .pair a b, .pair c d, _ => .ofBool (a == c && b == d)
+  | .str a, .str b, _ => .ofBool (a == b)
+  | .ref a, .ref b, _ => .ofBool (a == b)
+  | _, _, _ => .ff
+def eqArrS (s : St) : List Val → List Val → Nat → EqRes
+  | a :: as, b :: bs, t =>
+    match eqS s a b t with
+    | .tt => eqArrS s as bs t
+    | r => r
+  | _, _, _ => .tt
+def eqStructS (s : St) : List Val → List Val → List Nat → EqRes
+  | a :: as, b :: bs, t :: ts =>
+    match eqS s a b t with
+    | .tt => eqStructS s as bs ts
+    | r => r
+  | _, _, _ => .tt
 end
 
-mutual
-/-- Go spec: is the type comparable? -/
-def comparable : Ty → Bool
-  | .int => true
-  | .str => true
-  | .iface => true
-  | .slice => false
-  | .map => false
-  | .func => false
-  | .arr _ e => comparable e
-  | .struct fs => allComparable fs
-def allComparable : Fields → Bool
-  | .nil => true
-  | .cons _ t rest => comparable t && allComparable rest
-end
+def ifaceEqS (s : St) (a b : Val) : EqRes := eqS s a b 0
+
+/-! ### diagnosis: which of the recorded defect classes can affect the method set of `t`
+    (these are the decidable hypotheses of the `_partial` theorems, evaluated per type) -/
+
+/-- every type reached by the embedding walk, with the depth-level it was reached at -/
+def closureLoop (s : St) : Nat → List SEnt → List Nat → List (List SEnt) → List (List SEnt)
+  | 0, _, _, acc => acc
+  | _ + 1, [], _, acc => acc
+  | f + 1, cur, seen, acc =>
+    let a := cur.foldl (sVisit s (fun _ => none)) { seen := seen, mset := [], fset := [], next := [] }
+    closureLoop s f (consolidate [] a.next) a.seen (acc ++ [cur.filter fun e => !((s.get e.typ).named && seen.contains e.typ)])
+
+def closureLevels (s : St) (t : Nat) : List (List SEnt) :=
+  let o := s.get t
+  let isPtr := o.kind = kPtr ∧ !o.named
+  closureLoop s (s.size + 1) [⟨if isPtr then o.elem else t, isPtr, false⟩] [] []
+
+def dupBy {α : Type} [BEq α] : List α → Bool
+  | [] => false
+  | x :: r => r.contains x || dupBy r
+
+structure Diag where
+  amb : Bool          -- a method name occurs twice at one depth, or an embedded type is reached twice at one depth
+  fieldhide : Bool    -- a field name equals a method name somewhere in the closure
+  ptrshadow : Bool    -- a pointer-receiver method reached without indirection shares its name with another method
+  pkgname : Bool      -- two methods share the name but not the package qualifier
+deriving Repr
+
+def diag (s : St) (ptrOf : Nat → Option Nat) (t : Nat) : Diag :=
+  let lv := closureLevels s t
+  let ents := lv.flatMap id
+  let methodsOf (e : SEnt) : List (Method × Bool) :=
+    let o := s.get e.typ
+    if o.kind = kInterface then o.methods.map (fun m => (m, false))
+    else if o.named then declaredMethods s ptrOf e.typ else []
+  let allM := ents.flatMap methodsOf
+  let names := allM.map (·.1.name)
+  let fieldNames := ents.flatMap fun e => let o := s.get e.typ; if o.kind = kStruct then o.fields.map (·.name) else []
+  let nextRaw (l : List SEnt) : List Nat := l.flatMap fun e =>
+    let o := s.get e.typ
+    if o.kind = kStruct then (o.fields.filter (·.embedded)).map (fun f =>
+      let ft := s.get f.typ; if ft.kind = kPtr ∧ !ft.named then ft.elem else f.typ) else []
+  { amb := lv.any (fun l => dupBy ((l.flatMap methodsOf).map (·.1.name)) || dupBy (nextRaw l)) || ents.any (·.multiples),
+    fieldhide := fieldNames.any (fun f => names.contains f),
+    ptrshadow := ents.any (fun e => !e.indirect && (methodsOf e).any (fun mp => mp.2 && (names.filter (· == mp.1.name)).length ≥ 2)),
+    pkgname := allM.any (fun a => allM.any fun b => a.1.name == b.1.name && a.1.pkg != b.1.pkg) }
 
 end GV.Spec.GoTypes
